@@ -355,7 +355,9 @@ class Tree(DictSWC):
             raise ValueError(f"fails to read swc: {swc_file}") from e
 
         source = os.path.abspath(swc_file) if isinstance(swc_file, str) else ""
-        return cls.from_data_frame(df, source=source, comments=comments)
+        return cls.from_data_frame(
+            df, source=source, comments=comments, names=kwargs.get("names")
+        )
 
     @classmethod
     def from_eswc(
